@@ -96,6 +96,119 @@ def tp_fp_tasks(P, models=True):
                                   idx.lookup("evaluation.metrics.detection.tp_metrics:TPMetricsAp.get_value").fq: named_weight})
 
 
+def _list_sort(interp, args, kwargs, node):
+    """xs.sort(key=f, reverse=True) on an SMT list (assumed contract of list.sort): afterwards xs holds the same items in another order (a bijection of the
+    positions), keys do not increase along the list, and items with equal keys keep their former order (stability)"""
+    import z3
+    from pyvc.ops import to_real_z
+    lst = args[0]
+    if lst.kind != "slist" or set(kwargs) - {"key", "reverse"} or len(args) != 1 or "key" not in kwargs:
+        raise EngineError(f"list.sort in this form (line {getattr(node, 'lineno', '?')}): no assumed contract")
+    rev = kwargs.get("reverse")
+    if rev is None or rev.kind != "bool" or not z3.is_true(z3.simplify(rev.z)):
+        raise EngineError("list.sort without reverse=True: no assumed contract")
+    ctx = interp.ctx
+    n = ctx.slen(lst.z)
+    ctx.counter += 1
+    perm = z3.Function(f"sort_perm!{ctx.counter}", I, I)
+    inv = z3.Function(f"sort_perm_inv!{ctx.counter}", I, I)
+    k, a, b = z3.Int(f"k!sp{ctx.counter}"), z3.Int(f"a!sp{ctx.counter}"), z3.Int(f"b!sp{ctx.counter}")
+    rng = lambda v: z3.And(0 <= v, v < n)
+    ctx.pc.append(z3.ForAll([k], z3.Implies(rng(k), z3.And(rng(perm(k)), inv(perm(k)) == k)), patterns=[perm(k)]))
+    ctx.pc.append(z3.ForAll([k], z3.Implies(rng(k), z3.And(rng(inv(k)), perm(inv(k)) == k)), patterns=[inv(k)]))
+    snap = dict(ctx.sheap)
+
+    def permuted(j):
+        cur = ctx.sheap
+        ctx.sheap = snap
+        try:
+            return ctx.item_terms(lst, perm(j))
+        finally:
+            ctx.sheap = cur
+    ctx.set_list(lst, n, ("fn", permuted))
+    ctx.written.append(("list", lst.z, node))
+
+    def key_at(j, guard):
+        ctx.push_param(j, guard)
+        ctx.no_branch += 1
+        try:
+            return to_real_z(interp.call_value(kwargs["key"], [ctx.sitem(lst, j)], {}, node))
+        finally:
+            ctx.no_branch -= 1
+            ctx.pop_param()
+    g2 = z3.And(rng(a), rng(b), a < b)
+    ka, kb = key_at(a, g2), key_at(b, g2)
+    ctx.pc.append(z3.ForAll([a, b], z3.Implies(g2, z3.And(ka >= kb, z3.Implies(ka == kb, perm(a) < perm(b))))))
+    interp.spec_funcs["sort_source"] = lambda it, e, fr: VInt(perm(it.ev(e.args[0], fr).z))     # spec: position before the sort of the item now at position k
+    interp.spec_funcs["sort_position"] = lambda it, e, fr: VInt(inv(it.ev(e.args[0], fr).z))   # spec: position after the sort of the item formerly at position p
+    return NONE
+
+
+def init_tasks(P, models=True):
+    """Ap.__init__ on per-frame result lists: pooled into a list of its own (the caller's lists stay as they are), ranked by confidence, then the four steps in order"""
+    from pyvc.lemmas import sum_fn, add_sum_lemmas
+    idx = P.index
+    add_sum_lemmas(P)
+    APC = idx.lookup(f"{AP}:Ap")
+    OR = "evaluation.result.object_result"
+    RES = TSObj("DynamicObjectWithPerceptionResult")
+    RT, RL = TSList(RES), TSList(TReal())
+    NEST, ALL = "object_results", "all_object_results"
+
+    def install(it):
+        from pyvc.externals import _wrap
+        it.externals["sym.list_sort"] = _wrap(it, "sym.list_sort", _list_sort, "xs.sort(key=f, reverse=True): same items, keys non-increasing, equal keys keep their order")
+    P.install(install)
+    gt_, dt_ = sum_fn("results_before")
+    total = f"results_before(len({NEST}))"
+    untouched = (f"len({NEST}) == old(len({NEST})) and forall(g, 0, len({NEST}), {NEST}[g] is old({NEST}[g]) and len({NEST}[g]) == old(len({NEST}[g])) and "
+                 f"forall(k, 0, len({NEST}[g]), {NEST}[g][k] is old({NEST}[g][k])))")
+    cuts = {
+        idx.lookup(f"{AP}:Ap._calculate_tp_fp").fq: Contract(f"{AP}:Ap._calculate_tp_fp", params={}, returns=TTuple(RL, RL),
+            requires=E("ranked_by_confidence", "forall(a, 0, len(object_results), forall(b, 0, len(object_results), implies(a < b, "
+                                               "object_results[a].estimated_object.semantic_score >= object_results[b].estimated_object.semantic_score)))",
+                       "all_results_recorded", "self.objects_results_num == len(object_results)"),
+            ensures=E("named", "uf_bool('tp_fp_lists_of', result[0], result[1], object_results, tp_metrics) and is_new(result[0]) and is_new(result[1])")),
+        idx.lookup(f"{AP}:Ap.get_precision_recall_list").fq: Contract(f"{AP}:Ap.get_precision_recall_list", params={}, returns=TTuple(RL, RL),
+            ensures=E("named", "uf_bool('precision_recall_of', result[0], result[1], self.tp_list, self.num_ground_truth)")),
+        idx.lookup(f"{AP}:Ap._calculate_ap").fq: Contract(f"{AP}:Ap._calculate_ap", params={}, returns=TReal(),
+            ensures=E("named", "result == uf_real('area_under', precision_list, recall_list)")),
+        idx.lookup(f"{AP}:Ap._calculate_average_sd").fq: Contract(f"{AP}:Ap._calculate_average_sd", params={}, returns=TTuple(TOpt(TReal()), TOpt(TReal()))),
+    }
+    flat = f"forall(g, 0, f, forall(m, 0, len({NEST}[g]), {ALL}[results_before(g) + m] is {NEST}[g][m]))"
+    P.verify(f"{AP}:Ap.__init__", name="Ap.__init__[results of several frames]",
+             contract=Contract(f"{AP}:Ap.__init__", cut=False,
+                               params={"self": lambda it: it.ctx.new_cell("obj", {}, APC), "tp_metrics": lambda it: it.ctx.new_cell("obj", {}, idx.lookup("evaluation.metrics.detection.tp_metrics:TPMetricsAp")),
+                                       NEST: TSList(RT), "num_ground_truth": TInt(), "target_labels": TSList(TEnum(idx.lookup("common.label:AutowareLabel"))),
+                                       "matching_mode": TEnum(idx.lookup("evaluation.matching.object_matching:MatchingMode")), "matching_threshold_list": TSList(TReal())},
+                               locals={ALL: RT, "precision_list": RL, "recall_list": RL},
+                               ghosts={"results_before": gt_}, defs=dt_(lambda g: f"len({NEST}[{g}])", f"len({NEST})"),
+                               requires=E("some_frames", f"len({NEST}) > 0",
+                                          "frames_are_distinct_lists", f"forall(a, 0, len({NEST}), forall(b, 0, len({NEST}), implies(a != b, {NEST}[a] is not {NEST}[b])))"),
+                               loops={1: LoopSpec(index="f", invariants=E(
+                                   "a_list_of_its_own_with_the_results_of_the_frames_so_far", f"not is_old({ALL}) and allocated({ALL}) and len({ALL}) == results_before(f)",
+                                   "frame_by_frame_in_order", flat,
+                                   "callers_lists_untouched", untouched))},
+                               hints={"self.tp_list: List[float] = []": E(
+                                   "every_result_of_every_frame_is_ranked_exactly_once",
+                                   f"len({ALL}) == {total} and forall(k, 0, len({ALL}), 0 <= sort_source(k) and sort_source(k) < {total}) and "
+                                   f"forall(g, 0, len({NEST}), forall(m, 0, len({NEST}[g]), 0 <= sort_position(results_before(g) + m) and sort_position(results_before(g) + m) < len({ALL}) and "
+                                   f"sort_source(sort_position(results_before(g) + m)) == results_before(g) + m and {ALL}[sort_position(results_before(g) + m)] is {NEST}[g][m]))",
+                                   "ranked_by_confidence_ties_in_frame_order",
+                                   f"forall(a, 0, len({ALL}), forall(b, 0, len({ALL}), implies(a < b, {ALL}[a].estimated_object.semantic_score >= {ALL}[b].estimated_object.semantic_score and "
+                                   f"implies({ALL}[a].estimated_object.semantic_score == {ALL}[b].estimated_object.semantic_score, sort_source(a) < sort_source(b)))))")},
+                               ensures=E("every_result_counted_once", f"self.objects_results_num == {total}",
+                                         "tp_and_fp_lists_of_the_ranked_results", f"uf_bool('tp_fp_lists_of', self.tp_list, self.fp_list, local('{ALL}', None), tp_metrics)",
+                                         "ap_is_the_area_under_the_precision_recall_lists_of_these_tp",
+                                         f"implies({total} > 0, uf_bool('precision_recall_of', local('precision_list', None), local('recall_list', None), self.tp_list, self.num_ground_truth) and "
+                                         f"self.ap == uf_real('area_under', local('precision_list', None), local('recall_list', None)))",
+                                         "undefined_without_results", f"implies({total} == 0, self.ap == float('inf'))",
+                                         "configuration_kept", "self.num_ground_truth == num_ground_truth and self.target_labels is target_labels and self.matching_mode is matching_mode and "
+                                                               "self.matching_threshold_list is matching_threshold_list and self.tp_metrics is tp_metrics",
+                                         "callers_lists_untouched", untouched)),
+             extra_contracts=cuts)
+
+
 def build(P):
     idx = P.index
     P.min_obligations = 60
@@ -123,6 +236,7 @@ def build(P):
                            "precision_is_cumulative_tp_over_rank", "forall(k, 0, len(self.tp_list), result[0][k] == self.tp_list[k] / (k + 1))",
                            "recall_is_cumulative_tp_over_ground_truths", "forall(k, 0, len(self.tp_list), result[1][k] == (self.tp_list[k] / self.num_ground_truth if self.num_ground_truth > 0 else 0))")))
     tp_fp_tasks(P)
+    init_tasks(P)
     # ---------------------------------------------------------------- interpolation: maximum precision at any higher recall
     PL, RLs = "precision_list", "recall_list"
     MP, MR = "max_precision_list", "max_precision_recall_list"
